@@ -1,11 +1,10 @@
 (* C15  Iteration returns the requested causal range, newest first, and always ends.
    For every reachable log (forked ones included) and every option combination.
-   The functional half is proved for the hash-tiebreak ordering (any upper bounds, causally related
-   or not).  For the default ordering it is proved when the upper bound is the default (the heads)
-   on tie-free logs - C15_default_order_partial; with explicit LTE/LT bounds under the default
-   ordering the statement is covered by the correspondence harness only (the traversal-extensionality
-   lemma needs unreferenced roots).  Never-panics, closes-the-channel and error-on-unknown-bound hold
-   for every ordering. *)
+   The functional half is proved for every total ordering (hash-tiebreak always; default ordering on
+   tie-free logs) and any upper bounds, causally related or not: LastWriteWins answers "less" on
+   identical arguments, but sorts exactly like its irreflexive twin, duplicates included
+   (TravProofs.gosort_twin).  Never-panics, closes-the-channel and error-on-unknown-bound hold for
+   every ordering. *)
 From Coq Require Import List ZArith Bool Lia Permutation Sorted.
 From IpfsLog Require Import Model.System Proofs.OmapProofs Proofs.SortProofs Proofs.Inv Proofs.SysProofs
      Proofs.TravProofs Proofs.TimeProofs Proofs.ValuesProofs Proofs.IterProofs.
@@ -15,7 +14,8 @@ Open Scope Z_scope.
 (* the emitted entries = the causal past of the upper bound, newest first, each once, then cut *)
 Theorem C15_iterator_range ops r l o st :
   wf ops -> Z.of_nat (length ops) < two63 -> nth_error (s_logs (run ops)) r = Some l ->
-  l_sort l = SHash -> it_amount o <> Some 0 ->
+  order_total l ->                                (* hash-tiebreak ordering, or default ordering without ties *)
+  it_amount o <> Some 0 ->
   iter_start l o = Ok st ->                       (* the upper bounds are entries of the log *)
   let roots := oslice (from_entries st) in
   exists R,
@@ -24,8 +24,8 @@ Theorem C15_iterator_range ops r l o st :
     StronglySorted (gt SHash) (oslice R) /\
     iterator l o = Ok (iter_post o (oslice (cut (iter_count o) (iter_end o) 0 R)), true).
 Proof.
-  intros W Hlen L SH Ha S. destruct (sinv_run ops W) as [UO IL].
-  exact (iterator_spec l _ UO (IL r l L) (times_in_range ops r l W Hlen L) SH o st Ha S).
+  intros W Hlen L OT Ha S. destruct (sinv_run ops W) as [UO IL].
+  exact (iterator_spec_total _ l o st UO (IL r l L) (times_in_range ops r l W Hlen L) OT Ha S).
 Qed.
 
 (* how the cut reads for each kind of request (R as above) *)
